@@ -139,7 +139,7 @@ func (h *c09) dump() []interface{} {
 
 func copyB(b []byte) []byte { return append([]byte{}, b...) }
 
-func strList(xs []string) []interface{} {
+func c09StrList(xs []string) []interface{} {
 	out := make([]interface{}, len(xs))
 	for i, x := range xs {
 		out[i] = x
@@ -180,7 +180,7 @@ func (h *c09) query(op map[string]interface{}) map[string]interface{} {
 				for d := range idx.GetTermMatch(ctx, f, t, k) {
 					ds = append(ds, d)
 				}
-				per = append(per, strList(ds))
+				per = append(per, c09StrList(ds))
 			}
 			all = append(all, per)
 		}
@@ -199,7 +199,7 @@ func (h *c09) query(op map[string]interface{}) map[string]interface{} {
 			ts = append(ts, c09TermHex(t))
 		}
 		sort.Strings(ts)
-		tl = append(tl, strList(ts))
+		tl = append(tl, c09StrList(ts))
 	}
 	obs["terms"] = tl
 	cl := []interface{}{}
@@ -217,19 +217,19 @@ func (h *c09) query(op map[string]interface{}) map[string]interface{} {
 		for v := range idx.FieldNumbers(f) {
 			ns = append(ns, c09W(v))
 		}
-		nums = append(nums, strList(ns))
+		nums = append(nums, c09StrList(ns))
 		per := []interface{}{}
 		for _, r := range ranges {
 			per = append(per, c09Counts(idx.FieldTermNumberRange(f, r.lo, r.hi), true))
 		}
 		rng = append(rng, per)
 	}
-	obs["min"], obs["max"], obs["numbers"], obs["range"] = strList(mn), strList(mx), nums, rng
+	obs["min"], obs["max"], obs["numbers"], obs["range"] = c09StrList(mn), c09StrList(mx), nums, rng
 	enc := []string{}
 	for _, t := range terms {
 		enc = append(enc, c09TermHex(t))
 	}
-	obs["enc"] = strList(enc)
+	obs["enc"] = c09StrList(enc)
 	obs["dump"] = h.dump()
 	return obs
 }
